@@ -85,7 +85,9 @@ func buildC16(tier string, seed int64) *Family {
 	}
 	// an evaluation that aborts (pattern known only at run time does not compile) before the one checked
 	for _, x := range []string{"matches('ab', concat('^a', 'b$'))", "replace('ab', concat('a', ''), concat('x', 'y'))", "matches(a, concat('^', '1'))", "concat('p', replace('aa', 'a', concat('b', '')))"} {
-		for _, pre := range []string{"concat('zz', replace('x', concat('[', ''), 'y'))", "concat('zz', 'y', matches('x', concat('(', '')))", "normalize-space(concat(' q ', matches('x', concat('[', ''))))"} {
+		// (the run-time pattern is built without concat()/normalize-space(): one pooled builder is in play,
+		// so that every legal behaviour of sync.Pool hands it to the next call)
+		for _, pre := range []string{"concat('zz', replace('x', translate('[', 'q', 'q'), 'y'))", "concat('zz', 'y', matches('x', substring('(((', 2)))", "concat('q', matches('x', lower-case('[')), 'r')"} {
 			in := valueInst(x, rcfg)
 			in.ID = "after an aborted evaluation: " + pre + " ; " + in.ID
 			in.Params["prelude"] = pre
